@@ -75,6 +75,12 @@ Theorem c03_id_from_hex : forall n h,
 Proof. exact id_from_hex_spec. Qed.
 Print Assumptions c03_id_from_hex.
 
+(** "Never accepts malformed headers": the W3C grammar forbids version ff, so a traceparent
+    that starts with it leaves the context untouched whatever follows and whatever the tracestate. *)
+Theorem c03_forbidden_version : forall tp ts, forbidden_version tp = true -> extract tp ts = None.
+Proof. exact extract_rejects_ff. Qed.
+Print Assumptions c03_forbidden_version.
+
 (** Non-vacuity: concrete states meeting the hypotheses. *)
 Definition ex_ts : list member := [(str "rojo", str "00f067aa0ba902b7"); (str "t1@sys", str "a b")].
 Definition ex_sc : spanctx :=
@@ -100,3 +106,7 @@ Example ex_insert_overflow :
   w3c_members l = true /\ length l = 32%nat /\
   ts_insert l (str "new") (str "x") = Some ((str "new", str "x") :: removelast l).
 Proof. vm_compute. auto. Qed.
+Example ex_forbidden_version :
+  forbidden_version (str "ff-4bf92f3577b34da6a3ce929d0e0e4736-00f067aa0ba902b7-01") = true /\
+  extract (str "fe-4bf92f3577b34da6a3ce929d0e0e4736-00f067aa0ba902b7-01") [] <> None.
+Proof. split; vm_compute; [reflexivity|discriminate]. Qed.
